@@ -56,6 +56,12 @@ def _if_on(node_list, test_txt) -> Optional[ast.If]:
 
 
 def run(repo: Repo, ctx) -> None:
+    _run_main(repo, ctx)
+    from .c09 import root_schema_rule
+    root_schema_rule(repo, ctx, 'C17.R7')
+
+
+def _run_main(repo: Repo, ctx) -> None:
     ctx.explanation = (
         'Decides for edb/server/compiler_pool: R1 the slot order of the '
         'state components is the same in the sender (both arms of '
